@@ -11,6 +11,7 @@ Import ListNotations.
 Require Import Grist.Model.Renames Grist.Model.RenamesPrint.
 Require Import Grist.Proofs.Renames_proofs Grist.Proofs.Renames_fresh_proofs Grist.Proofs.Renames_text_proofs.
 Require Import Grist.Proofs.Renames_print_proofs Grist.Proofs.Renames_check_proofs Grist.Proofs.Renames_doc_proofs.
+Require Import Grist.Lib.RenPrelude GristGen.Renames_gen Grist.Proofs.Renames_bridge.
 Open Scope Z_scope.
 
 (* ---- the property for an engine that ACCEPTS every rename, and why some renames must be rejected ----------------- *)
@@ -296,3 +297,54 @@ Example C16_names_complete_example :
   names_complete id_tab (colS nU nV nZ) s (pr ex_doc nT [] f_chain) reported /\
   rename_text id_tab (colS nU nV nZ) s reported = ROk [36; 82; 46; 90].
 Proof. cbv zeta. split; [split|]; vm_compute; reflexivity. Qed.
+
+(* ---- the code itself: definitions translated from /repo on every run (GristGen.Renames_gen, harness/c16v.py) ------- *)
+(* UserActions._prepare_formula_renames, as translated: for every formula column k it returns an update exactly when a
+   name reported for k is being renamed, and the new text is the model's rename_text on the names reported for k. *)
+Theorem C16_code_prepare_formula_renames : forall rt rc renames_get formula_of,
+  (forall t c, renames_get t c = if renamed rt rc (0, t, c) then Some (new_text rt rc (0, t, c)) else None) ->
+  (forall t c, renamed rt rc (0, t, c) = true -> new_text rt rc (0, t, c) <> []) ->
+  forall names k, cols_nonempty names ->
+  res_get (gen_prepare_formula_renames renames_get formula_of names) k
+  = match filter (renamed rt rc) (reported_for k names) with
+    | [] => None
+    | _ => Some (rename_text rt rc (formula_of k) (reported_for k names))
+    end.
+Proof. exact prepare_bridge. Qed.
+
+(* ... hence, when the discovery is complete for column k, the code writes the old text with exactly the renamed name
+   tokens replaced *)
+Theorem C16_code_patches_touch_only_spans : forall rt rc renames_get formula_of,
+  (forall t c, renames_get t c = if renamed rt rc (0, t, c) then Some (new_text rt rc (0, t, c)) else None) ->
+  (forall t c, renamed rt rc (0, t, c) = true -> new_text rt rc (0, t, c) <> []) ->
+  forall names k l, cols_nonempty names ->
+  names_complete rt rc (formula_of k) l (reported_for k names) ->
+  filter (renamed rt rc) (reported_for k names) <> [] ->
+  res_get (gen_prepare_formula_renames renames_get formula_of names) k = Some (ROk (flatten (map (rn_seg rt rc) l))).
+Proof.
+  intros rt rc rg fo H1 H2 names k l Hne Hnc Hsome. rewrite (prepare_bridge rt rc rg fo H1 H2 names k Hne).
+  rewrite (rename_text_spec _ _ _ _ _ Hnc). destruct (filter (renamed rt rc) (reported_for k names)); [contradiction|reflexivity].
+Qed.
+
+(* GenCode.grist_names, as translated: what the name discovery reports for the current builder (nothing remembered) *)
+Theorem C16_code_grist_names : forall (B N : Type) (parse : B -> N) (b : B), gen_grist_names parse b = parse b.
+Proof. exact grist_names_bridge. Qed.
+
+(* _adjust_one_column_update.add, as translated: every sister / group-by column is queued with its own update *)
+Theorem C16_code_add_own_update : forall (C D : Type) (skip : C -> D -> D) cols v c d,
+  In (c, d) (gen_add skip [] cols v) -> d = skip c v.
+Proof. exact add_own_dict. Qed.
+
+(* _updateTableRecords' rename map, as translated: exactly the tables whose id changes in this update *)
+Theorem C16_code_table_renames_complete : forall (T V : Type) (tid : T -> name) (vt : V -> name) (diff : V -> name -> bool)
+  pairs t v, In (t, v) pairs -> diff v (tid t) = true -> In (tid t, vt v) (gen_table_renames tid vt diff pairs).
+Proof. exact table_renames_complete. Qed.
+
+(* _updateColumnRecords' merge of the rewritten formulas, as translated: every column gets ITS OWN formula *)
+Theorem C16_code_merge_own_formula : forall sorted us d k,
+  upd_get (gen_merge_formulas sorted d us) k
+  = match upd_get d k with
+    | Some (Some g) => Some (Some g)
+    | other => match assoc_formula (sorted us) k with Some f => Some (Some f) | None => other end
+    end.
+Proof. exact merge_own_formula. Qed.
